@@ -39,8 +39,10 @@ type generator struct {
 	used   map[string]bool // Go-cased identifiers in use, program-wide
 	serial int
 	defIdx int
-	topIn  map[*File]map[string]bool // Go-cased top-level names per file
-	topAll []string
+	// msgForced: an exception with a required, redacted string field `message` exists (SpreadRedact)
+	msgForced bool
+	topIn     map[*File]map[string]bool // Go-cased top-level names per file
+	topAll    []string
 }
 
 var wordPool = []string{"alpha", "bravo", "cargo", "delta", "ember", "frost", "gamma", "hotel", "index",
@@ -79,7 +81,7 @@ func (g *generator) fresh(style int) string {
 		}
 		k := GoCase(s)
 		k2 := ConstName(s)
-		if g.used[k] || g.used[k2] {
+		if g.used[k] || g.used[k2] || g.used[s] {
 			continue
 		}
 		g.used[k] = true
@@ -167,6 +169,12 @@ func Generate(r *rng.R, cfg Config) *Program {
 			}
 			if !bases[base] {
 				bases[base] = true
+				// an include declares its base name in the including file: no type, constant or
+				// service may be called that (thriftrw refuses it at compile time — found by
+				// the thorough tier: `struct delta1` beside `include "./delta1.thrift"`)
+				g.used[GoCase(base)] = true
+				g.used[ConstName(base)] = true
+				g.used[base] = true
 				break
 			}
 		}
@@ -522,6 +530,12 @@ func (g *generator) genFields(f *File, d *Def, fwd []*Def) {
 	}
 	// the conventional shape of an exception: a string field called message
 	wantMsg := d.Kind == Exception && r.Chance(2, 3)
+	// with SpreadRedact the first exception of a program always has the conventional message field,
+	// required and redacted (below)
+	forceMsg := d.Kind == Exception && g.cfg.SpreadRedact && !g.msgForced
+	if forceMsg {
+		wantMsg, g.msgForced = true, true
+	}
 	if wantMsg && n == 0 {
 		n = 1
 	}
@@ -588,6 +602,22 @@ func (g *generator) genFields(f *File, d *Def, fwd []*Def) {
 		if d.Kind != Union && r.Chance(g.cfg.DefaultPct, 100) && fieldDefaultOK(fl.Type) {
 			fl.Default = g.genLit(f, fl.Type, 2, 3)
 		}
+		if wantMsg && i == 0 && g.cfg.SpreadRedact && fl.Type.K == String && GoCase(fl.Name) == "Message" && (forceMsg || r.Chance(2, 3)) {
+			// the message of an error is what Error() is most tempted to print: spelled the
+			// conventional way, required and redacted
+			fl.Name, fl.Req, fl.Redact, fl.Default = "message", Required, true, nil
+		}
+		d.Fields = append(d.Fields, fl)
+	}
+	// one struct in three is a tree: a list of its own kind (values of it can be nested to any depth
+	// below a collection)
+	if d.Kind == Struct && r.Chance(1, 3) {
+		id := 1
+		for ids[id] {
+			id++
+		}
+		fl := &Field{ID: id, Name: g.fieldName(), Req: Optional, Type: &Type{K: List, Elem: &Type{K: Named, Ref: d}}}
+		g.annotateField(fl)
 		d.Fields = append(d.Fields, fl)
 	}
 }
@@ -700,7 +730,8 @@ func constable(t *Type, depth int) bool {
 	}
 }
 
-var strPool = []string{"", "a", "hello", "Hello World", "x y z", "tab\there", "line\nbreak", "quote\"inside", "back\\slash", "semi;colon", "üñí", "{}[]", "0", "true"}
+var strPool = []string{"", "a", "hello", "Hello World", "x y z", "tab\there", "line\nbreak", "quote\"inside", "back\\slash", "semi;colon", "üñí", "{}[]", "0", "true",
+	"dos\r\nline\r\nends", "two\n\nparagraphs\n", "cr\ronly", "back`quote\nand newline", "trailing space \n next", "\xef\xbb\xbfbom\nline"}
 
 // genLit writes a literal for type t (which must be constable).
 func (g *generator) genLit(f *File, t *Type, depth, cd int) *Lit {
@@ -892,6 +923,9 @@ func (g *generator) genService(f *File) {
 	n := 1 + r.Intn(g.cfg.Funcs)
 	for i := 0; i < n; i++ {
 		fn := &Func{Name: g.fieldName()}
+		if g.r.Chance(1, 5) {
+			fn.Ann = fmt.Sprintf(`go.name = "Renamed%d"`, g.serial)
+		}
 		na := r.Intn(4)
 		ids := map[int]bool{}
 		for j := 0; j < na; j++ {
@@ -953,5 +987,6 @@ var doublePool = []string{"0.0", "1.5", "-2.25", "3.0", "1e10", "-1.0e-3", "1234
 	"1e19", "-1e19", "1e20", "6.022e23", "9223372036854775808.0", "-9223372036854775809.0", "18446744073709551616.0", "1e15", "1e21", "1e22", "123456789012345680000.0",
 	"1.7976931348623157e308", "-1.7976931348623157e308", "5e-324", "2.2250738585072014e-308", "1e-310",
 	"0.30000000000000004", "9007199254740993.0", "4503599627370497.5", "1e300", "-1e-300"}
+
 // (negative zero is not in the pool: Go has no negative-zero constant, thriftrw writes the literal
 // as `-0` and the generated constant / default is +0 — known finding D76, probed by a fixed program)
